@@ -710,6 +710,7 @@ func (ex *Exec) assertCheckP(r *Runner, h *Harness, tag string, cond *Term, pref
 				}
 				if r2 == Sat {
 					found = true
+					m2 = ex.realize(tt.BAnd(neg, rg.cond), m2)
 					in, order := ex.modelInputs(m2)
 					v := &Violation{Harness: h.Name, Tag: tag, Kind: "assert", Inputs: in, Order: order, Region: rg.slug}
 					h.mu.Lock()
@@ -728,6 +729,7 @@ func (ex *Exec) assertCheckP(r *Runner, h *Harness, tag string, cond *Term, pref
 			}
 		}
 	case Sat:
+		m = ex.realize(outside, m)
 		in, order := ex.modelInputs(m)
 		v := &Violation{Harness: h.Name, Tag: tag, Kind: "assert", Inputs: in, Order: order, Stack: ex.stackString()}
 		h.mu.Lock()
@@ -828,6 +830,7 @@ func (ex *Exec) coverCheck(h *Harness, tag string, cond *Term) {
 	}
 	res, m := ex.check(cond, true)
 	if res == Sat {
+		m = ex.realize(cond, m)
 		in, order := ex.modelInputs(m)
 		h.mu.Lock()
 		if _, have := h.Covers[tag]; !have {
@@ -855,4 +858,71 @@ func (ex *Exec) pcHasUF() bool {
 		}
 	}
 	return false
+}
+
+// realize tries to turn a model that relies on uninterpreted hash values into one in which every
+// modelled hash application has its real value, so that the model can be replayed natively:
+// pin each hashed input to its model value and the digest to the real hash of it, and re-solve.
+func (ex *Exec) realize(cond *Term, m *Model) *Model {
+	if len(ex.hashMemo) == 0 || m == nil {
+		return m
+	}
+	tt := ex.tt
+	cur := m
+	for round := 0; round < 3; round++ {
+		pins := tt.True
+		allReal := true
+		memo := map[int32]uint64{}
+		for _, e := range ex.hashMemo {
+			data := make([]byte, len(e.data))
+			ok := true
+			for i, t := range e.data {
+				v, o := tt.Eval(t, cur, memo)
+				if !o {
+					ok = false
+					break
+				}
+				data[i] = byte(v)
+			}
+			if !ok {
+				return m
+			}
+			var sum []byte
+			if e.code == 0x56 {
+				a := sha256Sum(data)
+				sum = sha256Sum(a)
+			} else {
+				h := registeredHashes[e.code].mk()
+				h.Write(data)
+				sum = h.Sum(nil)
+			}
+			for i, t := range e.data {
+				pins = tt.BAnd(pins, tt.Eq(t, tt.BV(uint64(data[i]), 8)))
+			}
+			for i, t := range e.digest {
+				pins = tt.BAnd(pins, tt.Eq(t, tt.BV(uint64(sum[i]), 8)))
+				if v, o := tt.Eval(t, cur, memo); !o || byte(v) != sum[i] {
+					allReal = false
+				}
+			}
+		}
+		if allReal {
+			return cur
+		}
+		var q *Term
+		if cond != nil {
+			q = tt.BAnd(cond, pins)
+		} else {
+			q = pins
+		}
+		saved := ex.model
+		ex.model = nil // force a full query so that every variable gets a value
+		r, nm := ex.check(q, true)
+		ex.model = saved
+		if r != Sat || nm == nil {
+			return m
+		}
+		cur = nm
+	}
+	return cur
 }
